@@ -42,4 +42,7 @@ theorem holds_stderr_taken_all (sinkFails : Nat → Bool) (lines : Nat) :
 theorem holds_stderr_taken_before_handshake (lines : Nat) : LogLine.stderrTakenDuringStart Facts.stderrReader lines = lines :=
   stderr_taken_before_handshake _ reader_good lines
 
+theorem holds_all_fields_kept (skipped : Bytes → Bool) (keys : List Bytes) : LogLine.keptKeys Facts.logline skipped keys = keys :=
+  Props.C10.all_fields_kept _ (by decide) skipped keys
+
 end GoPlugin.Instance.C10
